@@ -163,6 +163,18 @@ Theorem C17_late_track_refuted :
 Proof. exact late_track_refuted. Qed.
 Print Assumptions C17_late_track_refuted.
 
+(** start times: the timeline gives the time of the first listed segment and durations; a stored segment that
+    does not start where the previous number of its track ends is listed with the running sum, not with its own
+    time (finding c17-timeline-times-assume-contiguity; C17_sound_mpd_partial says what does hold) *)
+Theorem C17_time_discontinuity_refuted :
+  exists c ups pubs c' pub b it,
+    chan_inv c /\ run_pre c ups /\ chan_trace c ups = Ok (pubs, c') /\
+    last pubs None = Some pub /\ p_first pub = 1 /\ p_last pub = 4 /\
+    lookup 0 (g_bufs (ch_gen c')) = Some b /\ sdb_getItem b 4 = Ok (Some it) /\ i_dts it = 400 /\
+    nth 3 (expand (hd [] (p_tl pub)) 0) (0, 0) = (360, 100).
+Proof. exact time_discontinuity_refuted. Qed.
+Print Assumptions C17_time_discontinuity_refuted.
+
 (** ** Formerly refuted, now proved of the repaired code (the witnesses of the old refutations) *)
 
 (** C17_counters_refine_refuted / C17_insert_breaks_inv_refuted: 6 into [5,7] and into [5,7,9] (ddde9b0) *)
